@@ -38,6 +38,19 @@ COMMON_ASSUMPTIONS = [
 ]
 
 
+def _safe(o):
+    """JSON fallback that never evaluates repo code (str() of a symbolic trajectory would)"""
+    try:
+        import numpy as _np
+        if isinstance(o, _np.ndarray):
+            return o.tolist()
+        if isinstance(o, (_np.floating, _np.integer)):
+            return o.item()
+    except Exception:
+        pass
+    return "<%s>" % type(o).__name__
+
+
 def sanitize(s):
     return re.sub(r"[^A-Za-z0-9_.\-\[\]]+", "_", s)[:150]
 
@@ -178,7 +191,7 @@ def run_check(pid, tier, seed):
             continue
         path = os.path.join(ROOT, "replays", pid, sanitize("bounded_" + v["checker"] + "_" + tag) + ".json")
         json.dump({"property": pid, "kind": "bounded", "checker": v["checker"], "input": v["input"],
-                   "failed": v["failed"], "tag": tag}, open(path, "w"), indent=1, default=str)
+                   "failed": v["failed"], "tag": tag}, open(path, "w"), indent=1, default=_safe)
         S.violations.append({"obligation": "bounded:" + v["checker"] + ":" + tag, "replay": path, "found_input": True,
                              "what": v["failed"]})
     for vc in vcs:
@@ -208,7 +221,7 @@ def run_check(pid, tier, seed):
                    "model_replay": rp}
             if found:
                 rec.update({"checker": found["checker"], "input": found["input"], "failed": found["failed"]})
-            json.dump(rec, open(path, "w"), indent=1, default=str)
+            json.dump(rec, open(path, "w"), indent=1, default=_safe)
             S.violations.append({"obligation": vc.name, "replay": path, "found_input": bool(found),
                                  "what": vc.detail[:300]})
         elif vc.status == "refuted":
@@ -413,7 +426,7 @@ def write_evidence(pm, S, L, vcs, funcs_ok, funcs_oor, bres, npstub):
         "violations": len(S.violations),
     }
     os.makedirs(os.path.join(ROOT, "evidence"), exist_ok=True)
-    json.dump(ev, open(os.path.join(ROOT, "evidence", S.pid + ".json"), "w"), indent=1, default=str)
+    json.dump(ev, open(os.path.join(ROOT, "evidence", S.pid + ".json"), "w"), indent=1, default=_safe)
     return ev
 
 
